@@ -2,7 +2,7 @@
    Statements only.  Model: db/Merge.v (tied to src/db/mod.rs, group.rs, entry.rs by the merge
    correspondence run).  Component-level idempotence is proved here; the tree-level statement
    is carried by the correspondence sweep and listed as partial in the evidence. *)
-From KP Require Import Bytes Outcome Tree TreeFacts History Merge MergeProofs MergeLookup MergeTermination MergeUuids.
+From KP Require Import Bytes Outcome Tree TreeFacts History Merge MergeProofs MergeLookup MergeTermination MergeUuids MergeSelf MergePlaceWalk MergeTwice.
 
 (* a second merge of the same source group changes nothing and reports nothing *)
 Theorem c13_group_merge_idem : forall now d s d' lg,
@@ -47,3 +47,41 @@ Proof. exact merge_self. Qed.
 (* the deletion phase of a self-merge is a no-op for ANY tombstone list *)
 Theorem c13_merge_deletions_self : forall now root del, merge_deletions now root del del = Ok (root, del, []).
 Proof. exact merge_deletions_self. Qed.
+
+(* ---- the second merge of the same source, tree level (db/MergeTwice.v) ------------------------ *)
+(* If the first merge of s into d succeeded, merging s again returns the SAME database and reports no
+   event (warnings - an uncommitted source entry, a missing stamp - are repeated on every merge).
+   Domain: the destination holds no tombstones yet, the source's tombstones name nodes outside the
+   source tree, every group present in both replicas has the same parent in both (entries may have been
+   moved by either side), the source's entries are stamped. *)
+Theorem c13_second_merge_is_noop : forall (now : Z) (d s d1 : db) (lg1 : log),
+  uuids_ok d -> uuids_ok s -> gi_uuid (db_root_info d) = gi_uuid (db_root_info s) ->
+  db_deleted d = [] -> tombs_outside s -> (0 <= now)%Z -> entries_lm s -> same_group_parents d s ->
+  merge now d s = Ok (d1, lg1) ->
+  exists lg2 : log, merge now d1 s = Ok (d1, lg2) /\ is_warns lg2 /\
+                    (forall (t : evtype) (u : N), ~ In (Ev t u) lg2).
+Proof. exact merge_twice. Qed.
+
+(* the deletion phase applied twice, for any tombstone lists *)
+Theorem c13_deletion_phase_twice : forall (now : Z) (root : node) (del src : list dobj) (root' : node)
+                                          (del' : list dobj) (lg : log),
+  uuids_unique (children_of root) ->
+  merge_deletions now root del src = Ok (root', del', lg) ->
+  exists lg' : log, merge_deletions now root' del' src = Ok (root', del', lg') /\ is_warns lg'.
+Proof. exact merge_deletions_twice. Qed.
+
+(* History::merge_with applied twice *)
+Theorem c13_history_merge_twice : forall (a b h : list entry) (lg : log),
+  history_merge_with a b = Ok (h, lg) ->
+  exists lg' : log, history_merge_with h b = Ok (h, lg') /\ is_warns lg'.
+Proof. exact history_merge_twice. Qed.
+
+(* not vacuous: replicas with edits on both sides, an entry moved by each side, a source deletion and a
+   source tombstone for a foreign node meet the hypotheses, and the second merge is computed *)
+Theorem c13_second_merge_example :
+  (uuids_okb tx_d = true /\ uuids_okb tx_s = true /\
+   N.eqb (gi_uuid (db_root_info tx_d)) (gi_uuid (db_root_info tx_s)) = true /\
+   db_deleted tx_d = [] /\ tombs_outsideb tx_s = true /\ Z.leb 0 20 = true /\
+   entries_lmb tx_s = true /\ same_group_parentsb tx_d tx_s = true)
+  /\ merge 20 tx_d1 tx_s = Ok (tx_d1, []).
+Proof. exact tx_example. Qed.
